@@ -17,6 +17,7 @@ def check(ctx, env):
     from . import c09
     c09.r92(ctx, prog)
     K.r18_5_builder(ctx, prog)
+    K.r18_6_unknown_new(ctx, prog)
     if env.tier == "thorough":
         from .. import witness
         witness.run(ctx, "R18.1", ["W4"])
